@@ -7,7 +7,8 @@ from .common import CONTRACTS, entry, msg_enum, variant_env, stored, where, arm_
 from .hub_common import HUBCFG, STATE
 from .msgs import wasm_execute, vec_elems, coin_parts, is_zero_fact
 from .C17 import zero_send_sites, lab_short, swap_order
-from .msgs import push_sequences, response_sequences
+from .msgs import push_sequences, response_sequences, collection_repr
+from ..expr import E, simplify
 
 DISP = stored(HUBCFG, "reward_dispatcher_contract")
 
@@ -72,6 +73,12 @@ def run(prog, world, sem, rep):
                 if xi.op == "out" or (xi.op == "call" and xi.info.endswith("Vec::append")):
                     ks.append("appended")
                     continue
+                cr = collection_repr(world, xi)
+                if cr is not None:
+                    xi = world.ident(cr)
+                    some = simplify(E("proj", (xi,), "some"))
+                    if xi.op == "call" and xi.info.endswith("::Some"):
+                        xi = world.ident(xi.args[0])
                 inner = world.ident(xi.args[0]) if xi.op == "adt" and xi.info[0].endswith("CosmosMsg") and xi.args else xi
                 r0 = wasm_execute(world, sem, inner) if inner.op == "adt" else None
                 if r0 and r0[1] is not None and r0[1].op == "adt":
@@ -100,16 +107,29 @@ def run(prog, world, sem, rep):
         # unconditional per element
         be = v.be
         heads = []
+        if v.body.kind == "closure" and v.args and any(a is not None and a.op == "elem" for a in v.args):
+            # iterator form: the closure of a map over the delegations, no adaptor dropping entries, message built on every path
+            from ..iters import item_source, droppers
+            it = [a for a in v.args if a is not None and a.op == "elem"][0]
+            dr = droppers(world, item_source(world, it))
+            oks = [b2 for b2 in be.cfg.exits() if b2 in be.cfg.live]
+            always = not any(b2 in be.cfg.reach([0], stop={bb}) and b2 != bb for b2 in oks)
+            okw = okw and not dr and always
+            det = "validator %s; one message per delegation (iterator form): droppers %s, built on every path %s" % (show(val, 3), [d0[0] for d0 in dr], always)
+            rep.ob("C19.a", "one withdrawal per delegation of the hub", okw, det, where(h.body))
+            heads = None
         for blk in v.body.blocks:
             if blk.term.kind == "switch" and blk.idx in be.cfg.live:
                 for succ, fl in sem.edge_facts(be, blk.idx).items():
                     for f in fl:
                         if f[0] == "variant" and f[2] == "Some" and f[1].op == "call" and f[1].info.endswith("Iterator::next"):
                             heads.append((blk.idx, succ))
-        skip = any(hb in be.cfg.reach([succ], stop={bb}) for (hb, succ) in heads)
-        okw = okw and bool(heads) and not skip
-        det = "validator %s; one message per delegation: %s" % (show(val, 3), bool(heads) and not skip)
-    rep.ob("C19.a", "one withdrawal per delegation of the hub", okw, det, where(h.body))
+        if heads is not None:
+            skip = any(hb in be.cfg.reach([succ], stop={bb}) for (hb, succ) in heads)
+            okw = okw and bool(heads) and not skip
+            det = "validator %s; one message per delegation: %s" % (show(val, 3), bool(heads) and not skip)
+    if not (okw and len(wd) == 1 and wd[0][0].body.kind == "closure" and "iterator form" in det):
+        rep.ob("C19.a", "one withdrawal per delegation of the hub", okw, det, where(h.body))
     tgt_ok = True
     n_d = 0
     for (v, bb, i, e) in message_effects(sem, vs):
@@ -208,7 +228,7 @@ def run(prog, world, sem, rep):
             def fp(f, resolve, aid=aid):
                 return is_zero_fact(world, f, resolve, aid)
             ok, d = site_guarded(sem, vis, bb, fp)
-            rep.ob("C19.e", "%s %s{to=%s, denom=%s}" % (vis.body.path, kind, lab_short(to), lab_short(dl)), ok,
+            rep.ob("C19.e", "%s %s{to=%s, denom=%s}" % (k, kind, lab_short(to), lab_short(dl)), ok,
                    "zero-coin transfer possible in the reward-delivery transaction: amount %s unchecked (%s)" % (show(aid, 3), d) if not ok else d,
-                   where(vis.body, bb), key="C19.e | %s | %s{to=%s, denom=%s}" % (vis.body.path, kind, lab_short(to), lab_short(dl)),
+                   where(vis.body, bb), key="C19.e | %s | %s{to=%s, denom=%s}" % (k, kind, lab_short(to), lab_short(dl)),
                    fkey="%s{to=%s, denom=%s}" % (kind, lab_short(to), lab_short(dl)))
